@@ -317,8 +317,15 @@ func sameSP(a, b *rules.SlashingProtection) bool {
 // c05Wire is the wire slice: the real daemon with server.rules.admin-ips set, the client binding different
 // loopback source addresses so that the real SourceIP interceptor supplies the address.
 func c05Wire(run *evid.Run, cfg Cfg) {
-	r := cfg.Rand("c05-wire")
-	w, err := NewWireRig(cfg, "c05-wire", 12, []string{"127.0.0.2", "127.0.0.5"})
+	// Two administrator lists: one that does not contain the address the daemon itself listens on (127.0.0.1) and one
+	// that does, so that a daemon comparing the wrong end of the connection is seen either way.
+	c05WireCfg(run, cfg, "c05-wire", []string{"127.0.0.2", "127.0.0.5"})
+	c05WireCfg(run, cfg, "c05-wire-own", []string{"127.0.0.1", "127.0.0.5"})
+}
+
+func c05WireCfg(run *evid.Run, cfg Cfg, name string, admins []string) {
+	r := cfg.Rand(name)
+	w, err := NewWireRig(cfg, name, 12, admins)
 	if err != nil {
 		run.Inconclusive("cannot start daemon for the wire slice: " + err.Error())
 		return
@@ -335,8 +342,8 @@ func c05Wire(run *evid.Run, cfg Cfg) {
 			run.Inconclusive("cannot dial from " + src + ": " + err.Error())
 			return
 		}
-		listed := src == "127.0.0.2" || src == "127.0.0.5"
-		for k := 0; k < cfg.N(40, 400); k++ {
+		listed := src == admins[0] || src == admins[1]
+		for k := 0; k < cfg.N(25, 250); k++ {
 			dc := domClasses[r.Intn(len(domClasses))]
 			if r.Intn(3) == 0 {
 				dc = domClasses[4] // voluntary exit: the class whose verdict depends on the source address
@@ -346,7 +353,7 @@ func c05Wire(run *evid.Run, cfg Cfg) {
 			ki := r.Intn(12)
 			run.Eval(1)
 			cell := func(ep, out string) string {
-				return fmt.Sprintf("wire %s dom=%s src-listed=%v -> %s", ep, dc.name, listed, out)
+				return fmt.Sprintf("wire %s dom=%s admins=%v src-listed=%v -> %s", ep, dc.name, admins, listed, out)
 			}
 			switch r.Intn(4) {
 			case 0:
@@ -358,7 +365,7 @@ func c05Wire(run *evid.Run, cfg Cfg) {
 					run.Violate(fmt.Sprintf("wire: generic endpoint signed under slashable domain type %x", dom[:4]), cell("generic", "signed"))
 				}
 				if len(sig) > 0 && isExit && !listed {
-					run.Violate(fmt.Sprintf("wire: voluntary exit signed for a request from %s, admin list is [127.0.0.2 127.0.0.5]", src), cell("generic", "signed"))
+					run.Violate(fmt.Sprintf("wire: voluntary exit signed for a request from %s, admin list is %v", src, admins), cell("generic", "signed"))
 				}
 				if len(sig) > 0 && isExit && listed {
 					run.Count("wire_exit_signed_from_admin_ip", 1)
@@ -407,7 +414,7 @@ func c05Wire(run *evid.Run, cfg Cfg) {
 	}
 	// A positive control so that "never signed an exit" cannot be vacuous.
 	for try := 0; try < 20 && run.Get("wire_exit_signed_from_admin_ip") == 0; try++ {
-		_ = w.Dial("127.0.0.2")
+		_ = w.Dial(admins[1])
 		c := wfGen(r, env, try%12)
 		c.Data.Domain = randDomain(r, DomainExit)
 		if _, sig := env.SignGen(ViaWire, c); len(sig) > 0 {
